@@ -36,7 +36,7 @@ ASSUMPTIONS = [
     "hand-subscribing two singleton observers built with subscribe=False is counted, not judged "
     "(the property's anchor is the constructor guard)",
 ]
-REQUIRED_COUNTERS = {"history_observer_created_mid_history": 20, "update_events_checked": 2000, "reset_events_checked": 50,
+REQUIRED_COUNTERS = {"mid_round_unsubscriptions": 30, "history_observer_created_mid_history": 20, "update_events_checked": 2000, "reset_events_checked": 50,
                      "rejected_requests": 50, "singleton_guard_checks": 50,
                      "create_or_get_checks": 50, "unsubscribes": 50,
                      "history_observer_checks": 200}
@@ -64,6 +64,10 @@ def make_classes():
         def update(self, scheduled_operation):
             self.log.append((self.label, "update", scheduled_operation,
                              self.probe(self.dispatcher, scheduled_operation)))
+            # optional one-shot action performed from inside the notification round
+            act, self.pending_action = getattr(self, "pending_action", None), None
+            if act is not None:
+                act()
 
         def reset(self):
             self.log.append((self.label, "reset", None, self.probe(self.dispatcher, None)))
@@ -307,12 +311,39 @@ def run_case(ctx, case):
                 return
             o, m = run.choose(rng, case["policy"] if case["policy"] != "mixed" else "random_ready")
             warm(d)
+            recs_now = [s for s in subs if isinstance(s, Recorder)]
+            # sometimes an observer unsubscribes itself / a later / an earlier observer from
+            # inside its update(): observers unsubscribed before their turn receive nothing,
+            # everybody else is notified exactly once, in order
+            victim = actor = None
+            if len(recs_now) >= 2 and rng.random() < 0.15:
+                actor = rng.choice(recs_now)
+                victim = rng.choice(recs_now)
+
+                def act(actor=actor, victim=victim):
+                    if victim in d.subscribers:
+                        d.unsubscribe(victim)
+                actor.pending_action = act
+                ctx.count("mid_round_unsubscriptions")
+                script.append(("mid_round_unsub", labels[id(actor)], labels[id(victim)]))
             n0 = len(log)
             run.dispatch(o, m)
-            recs_now = [s for s in subs if isinstance(s, Recorder)]
             max_rec = max(max_rec, len(recs_now))
-            for s in recs_now:
-                expected.append((labels[id(s)], "update", o, None))
+            order = [s for s in subs]          # subscription order at the start of the round
+            gone = None
+            for s in order:
+                if s is gone:
+                    continue                   # unsubscribed before its turn
+                if isinstance(s, Recorder):
+                    expected.append((labels[id(s)], "update", o, None))
+                if s is actor and victim is not None and gone is None:
+                    # the actor's action takes effect right after its own notification
+                    if order.index(victim) > order.index(actor):
+                        gone = victim
+                    subs.remove(victim)
+                    if victim is hist:
+                        pass
+                    actor = None
             if model_hist is not None:
                 model_hist.append(o)
             script.append(("dispatch", o, m))
